@@ -27,6 +27,8 @@ def main(tier):
     fb3, _ = pygen.enum_frame_bodies(3, rng, None if thorough else 300)
     n_sem = len(mods) + 12        # the semantics tie (PySem vs CPython) runs on the modules generated so far and a few frame modules
     mods += pygen.modules_from_bodies(fb2 + (fb3[len(fb2):] if thorough else fb3 + pygen.routing_frame_bodies()))
+    # multi-arm statements, every terminate/fall-through pattern of the arms (if with up to 4 elif, try with up to 3 handlers, match)
+    mods += pygen.modules_from_bodies(pygen.arm_chain_bodies())
     d = lib.fresh_dir("c01")
     cc.write_modules(mods, d)
     oracles = cc.gen_oracles(rng, n_orc)
